@@ -7,6 +7,11 @@
 pub(crate) mod state;
 pub(crate) mod recv;
 pub(crate) mod send;
+pub(crate) mod flow_send;
+pub(crate) mod flow_recv;
+pub(crate) mod stream_sm;
+pub(crate) mod zero_rtt;
+pub(crate) mod misc_streams;
 
 /// One operation = opcode followed by integer arguments.
 pub type Ops = [Vec<i128>];
@@ -14,6 +19,21 @@ pub type Ops = [Vec<i128>];
 pub type Outs = Vec<Vec<i128>>;
 
 pub(crate) fn run(comp: &str, ops: &Ops) -> Option<Outs> {
+    if let Some(o) = misc_streams::run(comp, ops) {
+        return Some(o);
+    }
+    if let Some(o) = zero_rtt::run(comp, ops) {
+        return Some(o);
+    }
+    if let Some(o) = stream_sm::run(comp, ops) {
+        return Some(o);
+    }
+    if let Some(o) = flow_recv::run(comp, ops) {
+        return Some(o);
+    }
+    if let Some(o) = flow_send::run(comp, ops) {
+        return Some(o);
+    }
     if let Some(o) = state::run(comp, ops) {
         return Some(o);
     }
